@@ -2,7 +2,8 @@
 # Determinism self-check of the machinery: every listed check is run at several worker counts and
 # twice at the same count; the evidence (evaluations, distinct cases, every counter and probe,
 # violations) must be identical — results must not depend on worker count, arrival order or
-# process boundaries. Usage: selfcheck.sh [check ids...]   (default: a representative subset)
+# process boundaries. Known findings are compared by key, not by count: F13b/F21 (C20) ARE a dependence on
+# std's per-process random hash keys, which no seam owns, so how often they show varies. Usage: selfcheck.sh [check ids...]   (default: a representative subset)
 cd /verif || exit 2
 CHECKS="${@:-C01 C03 C05 C13 C17 C18}"
 FAIL=0
@@ -14,7 +15,7 @@ for c in $CHECKS; do
 import json,sys
 e=json.load(open('/verif/evidence/%s.json'%sys.argv[1]))
 c=e['coverage']
-print(json.dumps([c['evaluations'],c['distinct_nontrivial'],c['counters_and_probes'],c['simulated_time_decisions'],e['violations'],c['known_findings_hit']],sort_keys=True))
+print(json.dumps([c['evaluations'],c['distinct_nontrivial'],c['counters_and_probes'],c['simulated_time_decisions'],e['violations'],sorted(c['known_findings_hit'])],sort_keys=True))
 PY
 )
     if [ -z "$ref" ]; then ref="$sig"; elif [ "$sig" != "$ref" ]; then echo "NONDETERMINISTIC: $c differs at workers=$w"; echo "$ref" | head -c 400; echo; echo "$sig" | head -c 400; echo; FAIL=1; fi
